@@ -120,7 +120,7 @@ def _refer(spec: typing.Any, expr: str, value: typing.Any, earlier: typing.Seque
     if mode in (1, 2) and fitting:
         n, v = fitting[-1] if mode == 1 else fitting[0]
         return n, v
-    if mode in (3, 4) and numeric and spec[0] != "bool":
+    if mode in (3, 4) and numeric and spec[0] != "bool" and not expr.startswith("'"):  # (a character literal is no number yet)
         n, _ = numeric[-1] if mode == 3 else numeric[0]
         return "%s + %s - %s" % (expr, n, n), value
     if mode == 5 and spec[0] == "bool":
